@@ -205,6 +205,33 @@ Definition mir_no_dangling (P : msources) : bool :=
   && forallb (fun f => memN (fn_id f) (m_fn_names_def P) || builtin_cls (fn_cls f)) (mm_prog_fns P)
   && forallb (fun f => memN (fn_id f) (m_fn_names_def P)) (ms_mains P).
 
+(* the same validator with the names that are defined OUTSIDE the program as explicit parameters: `ext_fn f` - the function
+   is provided by the runtime library (libsam.wat / the TypeScript prolog), `ext_ty n` - the type is.  Used on the program
+   right after generics specialisation (checks/c03_names.py, stage "spec") with ext_fn = the FunctionName constants of
+   mir.rs (Process.println / panic, Str.*, Vec.*, the three memory built-ins) and ext_ty = _Str, _Vec. *)
+Definition mir_no_dangling_ext (ext_fn : fname -> bool) (ext_ty : tname -> bool) (P : msources) : bool :=
+  forallb (fun n => memN n (m_ty_names_def P) || ext_ty n || m_sub_defined P n) (mm_prog_tys P)
+  && forallb (fun s => memN s (ms_globals P)) (mm_prog_strs P)
+  && forallb (fun f => memN (fn_id f) (m_fn_names_def P)) (mm_prog_fnvals P)
+  && forallb (fun f => memN (fn_id f) (m_fn_names_def P) || ext_fn f) (mm_prog_fns P)
+  && forallb (fun f => memN (fn_id f) (m_fn_names_def P)) (ms_mains P).
+
+Record MirClosed (ext_fn : fname -> bool) (ext_ty : tname -> bool) (P : msources) : Prop := mkMirClosed {
+  mc_tys : forall n, In n (mm_prog_tys P) -> In n (m_ty_names_def P) \/ ext_ty n = true \/ m_sub_defined P n = true;
+  mc_strs : forall s, In s (mm_prog_strs P) -> In s (ms_globals P);
+  mc_fnvals : forall f, In f (mm_prog_fnvals P) -> In (fn_id f) (m_fn_names_def P);
+  mc_fns : forall f, In f (mm_prog_fns P) -> In (fn_id f) (m_fn_names_def P) \/ ext_fn f = true;
+  mc_mains : forall f, In f (ms_mains P) -> In (fn_id f) (m_fn_names_def P) }.
+
+(* the dangling references of each kind, for messages: (types, strings, function values, callees, entry points) *)
+Definition mir_dangling_ext (ext_fn : fname -> bool) (ext_ty : tname -> bool) (P : msources)
+  : list tname * list sname * list N * list N * list N :=
+  (filter (fun n => negb (memN n (m_ty_names_def P) || ext_ty n || m_sub_defined P n)) (mm_prog_tys P),
+   filter (fun s => negb (memN s (ms_globals P))) (mm_prog_strs P),
+   map fn_id (filter (fun f => negb (memN (fn_id f) (m_fn_names_def P))) (mm_prog_fnvals P)),
+   map fn_id (filter (fun f => negb (memN (fn_id f) (m_fn_names_def P) || ext_fn f)) (mm_prog_fns P)),
+   map fn_id (filter (fun f => negb (memN (fn_id f) (m_fn_names_def P))) (ms_mains P))).
+
 Definition mir_dangling (P : msources) : list tname * list sname * list N * list N * list N :=
   (filter (fun n => negb (m_ty_defined P n)) (mm_prog_tys P),
    filter (fun s => negb (memN s (ms_globals P))) (mm_prog_strs P),
